@@ -73,3 +73,74 @@ func OpaqueScanLines(s string) []string {
 	}
 	return out
 }
+
+// OpaqueJoinLines: strings.Join(l, "\n") (uninterpreted for the prover).
+func OpaqueJoinLines(l []string) string {
+	out := ""
+	for i, s := range l {
+		if i > 0 {
+			out += "\n"
+		}
+		out += s
+	}
+	return out
+}
+
+//@ extern strings.Join
+//@   params elems sep
+//@   results r
+//@   ensures implies(sep == "\n", r == OpaqueJoinLines(elems))
+
+//@ extern bytes.TrimLeft
+//@   params s cutset
+//@   results r
+//@   ensures implies(cutset == " \t", r == s[SpecSkipBlanks(s, 0):])
+
+//@ extern strings.TrimLeft
+//@   params s cutset
+//@   results r
+//@   ensures implies(cutset == " \t", r == s[SpecSkipBlanks(s, 0):])
+
+// SpecSkipBlanks: index of the first byte at or after i that is neither a blank nor a tab.
+func SpecSkipBlanks(s string, i int) int {
+	if i < 0 || i >= len(s) {
+		return len(s)
+	}
+	if s[i] != ' ' && s[i] != '\t' {
+		return i
+	}
+	return SpecSkipBlanks(s, i+1)
+}
+
+//@ lemma LemmaSkipBlanks
+//@   tags C09 C10
+//@   requires 0 <= i && i <= len(s)
+//@   decreases len(s) - i
+//@   ensures i <= SpecSkipBlanks(s, i) && SpecSkipBlanks(s, i) <= len(s)
+func LemmaSkipBlanks(s string, i int) {
+	if i >= len(s) {
+		return
+	}
+	if s[i] != ' ' && s[i] != '\t' {
+		return
+	}
+	LemmaSkipBlanks(s, i+1)
+}
+
+//@ extern bytes.Repeat
+//@   params b count
+//@   results r
+//@   requires count >= 0
+//@   ensures len(r) == len(b)*count
+//@   ensures implies(len(b) == 1, forall(0, len(r), func(k int) bool { return r[k] == b[0] }))
+
+func forall(lo, hi int, p func(int) bool) bool {
+	for k := lo; k < hi; k++ {
+		if !p(k) {
+			return false
+		}
+	}
+	return true
+}
+
+func implies(a, b bool) bool { return !a || b }
